@@ -477,6 +477,7 @@ def cmd_call(req):
         rows = []
         accepted = []
         kinds = {}
+        verdicts = []
         for kind, path, bad in enumerate_corruptions(STATE["schema"], box["data"], box["types"],
                                                      req.get("corrupt_limit", 60), req.get("seed", 0)):
             kinds[kind] = kinds.get(kind, 0) + 1
@@ -493,11 +494,14 @@ def cmd_call(req):
                 t, info = type_at(box["types"], path)
                 accepted.append({"kind": kind, "path": path, "type": t, "parent": info and info["parent"],
                                  "value": json.loads(json.dumps(bad))})
+                verdicts.append({"kind": kind, "path": path, "value": bad, "accepted": True})
             except BaseException as exc:  # noqa
                 if type(exc).__name__ != "ValidationError":
                     rows.append({"kind": kind, "path": path, "exc": type(exc).__name__, "msg": str(exc)[:300]})
+                else:
+                    verdicts.append({"kind": kind, "path": path, "value": bad, "accepted": False})
         out["corruptions"] = {"kinds": kinds, "accepted": accepted[:10], "n_accepted": len(accepted),
-                              "other_exc": rows[:10]}
+                              "other_exc": rows[:10], "verdicts": verdicts}
     return out
 
 
